@@ -8,7 +8,8 @@
    for every run by the driver, which compares the whole table). *)
 From Common Require Import Bytes Outcome Blake2b.
 From TrieCodec Require Import Codec View Db ProofsBasic ProofsDecode ProofsDb ProofsWrite.
-From C04 Require Import Model Proofs Examples.
+From TrieCodec Require Import ProofsLookup.
+From C04 Require Import Model Proofs ProofsAll ProofsNorm Examples.
 Local Open Scope N_scope.
 
 (* Reload: if the database holds what the trie t needs (every non-inlined node under its hash, every
@@ -21,6 +22,37 @@ Theorem C04_reload :
   load H st dfix (height t) d (H (encode H t)) = Ok (Some t).
 Proof. intros H Hlen st dfix t d W Hh Hne. exact (load_has H Hlen st dfix t d W Hh Hne (height t) (le_n _)). Qed.
 Print Assumptions C04_reload.
+
+(* Reload of a whole state (InMemoryTrie.Load = load_all): the main trie as in C04_reload and, for
+   every entry under ":child_storage:default:" in key order, the child trie whose root hash the entry
+   holds — each child trie that the database holds completely (child_ok: empty, or well-formed with
+   all its needed bindings present) comes back identical, paired with its root hash. *)
+Theorem C04_reload_state :
+  forall (H : list byte -> list byte), (forall x, length (H x) = 32%nat) ->
+  forall st dfix t d fuel cts,
+  wf_node t = true -> has d (needs H true t) -> H (encode H t) <> empty_root H ->
+  (height t <= fuel)%nat ->
+  Forall2 (child_ok H d fuel) (child_roots (Some t)) cts ->
+  load_all H st dfix fuel d (H (encode H t)) = Ok (Some t, combine (child_roots (Some t)) cts).
+Proof. exact load_all_has. Qed.
+Print Assumptions C04_reload_state.
+
+(* The specification side of the point reads is the entry list of the state: a key reads v exactly
+   when (key, v) is an entry, and reads as absent exactly when no entry has the key (keys in nibbles;
+   [entries] and the harness's Entries() are the same list with byte keys). *)
+Theorem C04_lookup_is_entry :
+  forall (H : list byte -> list byte), (forall x, length (H x) = 32%nat) ->
+  forall t key v, wf_node t = true ->
+  (lookup t key = Some v <-> In (key, v) (entries_node [] t)).
+Proof. exact lookup_is_entry. Qed.
+Print Assumptions C04_lookup_is_entry.
+
+Theorem C04_lookup_absent :
+  forall (H : list byte -> list byte), (forall x, length (H x) = 32%nat) ->
+  forall t key, wf_node t = true ->
+  (lookup t key = None <-> forall v, ~ In (key, v) (entries_node [] t)).
+Proof. exact lookup_absent. Qed.
+Print Assumptions C04_lookup_absent.
 
 (* Point read: GetFromDB (as repaired by fixes/C04-1..4) returns for every key, present or
    absent, what the in-memory trie holds under that key *)
@@ -69,6 +101,31 @@ Proof.
 Qed.
 Print Assumptions C04_history_reads.
 
+(* Reachable states that are not wf_node: deleting the value of a V1 branch leaves MustBeHashed set
+   on a node without value (wf_node forbids that).  [norm] clears such stale flags.  The history
+   theorem holds for them too: each trie of the history — stale flags allowed, its normal form
+   well-formed — has the encoding, hence the root hash, and the entries of its normal form, reloads
+   as its normal form, and reads back key by key.  (The stray entry partialKey ++ H(nil) that
+   WriteDirty stores for such a node is one more keyed binding of the history.) *)
+Theorem C04_history_reads_norm :
+  forall (H : list byte -> list byte), (forall x, length (H x) = 32%nat) ->
+  forall st dfix d ws d', chain H d ws d' -> H_inj_on H (all_strings H ws) ->
+  forall w, In w ws -> wf_node (norm (erase w)) = true -> H (encode H (erase w)) <> empty_root H ->
+     load H st dfix (height (norm (erase w))) d' (H (encode H (erase w))) = Ok (Some (norm (erase w)))
+  /\ encode H (norm (erase w)) = encode H (erase w)
+  /\ (forall p, entries_node p (norm (erase w)) = entries_node p (erase w))
+  /\ forall key, get_from_db_fixed H st dfix d' (H (encode H (erase w))) key
+                 = Ok (lookup (erase w) (nibbles_of_bytes key)).
+Proof. exact history_reads_norm. Qed.
+Print Assumptions C04_history_reads_norm.
+
+Example C04_stale_nonvacuous :
+     wf_node (erase ex_stale) = false /\ wf_node (norm (erase ex_stale)) = true
+  /\ db_get (db_of ex_stale) (nib [1] ++ blake2b_256 []) = Some []
+  /\ load blake2b_256 (false, false) true 2 (db_of ex_stale) (root_of ex_stale) = Ok (Some (norm (erase ex_stale)))
+  /\ get_from_db_fixed blake2b_256 (false, false) true (db_of ex_stale) (root_of ex_stale) (nib [20]) = Ok (Some v33).
+Proof. exact C04_stale_nonvacuous_holds. Qed.
+
 (* the hash of the code satisfies the length hypothesis *)
 Theorem C04_blake2b_length : forall m, length (blake2b_256 m) = 32%nat.
 Proof. exact blake2b_256_length. Qed.
@@ -83,6 +140,14 @@ Example C04_nonvacuous :
   /\ load blake2b_256 (false, false) true 3 (db_of ex_inlined) (root_of ex_inlined) = Ok (Some (erase ex_inlined))
   /\ get_from_db_fixed blake2b_256 (false, false) true (db_of ex_hashed) (root_of ex_hashed) (nib [31; 16]) = Ok (Some v33).
 Proof. exact C04_nonvacuous_holds. Qed.
+
+(* non-vacuity of C04_reload_state: a parent with one child trie, both written by WriteDirty *)
+Example C04_reload_state_nonvacuous :
+     child_roots (Some (erase ex_parent)) = [root_of ex_child]
+  /\ child_ok blake2b_256 db_state 1 (root_of ex_child) (Some (erase ex_child))
+  /\ load_all blake2b_256 (false, false) true 1 db_state (root_of ex_parent)
+     = Ok (Some (erase ex_parent), [(root_of ex_child, Some (erase ex_child))]).
+Proof. exact C04_reload_state_nonvacuous_holds. Qed.
 
 (* GetFromDB of the pinned tree: (1) returns the 32-byte hash of a hashed value, (2) fails on a key
    below an inlined branch, (3) returns the value of 0x1234 for the absent key 0x14, (4) returns the
